@@ -33,7 +33,7 @@ pub enum DataSpec {
 #[derive(Debug, Clone)]
 pub enum Case {
     /// TLF from a nibble pattern
-    Tlf { pos: u8, ty: u8, raw: u64, nibbles: u16, cont_bits: Option<(u8, u8)>, more_on_last: bool, data: DataSpec, fix: bool },
+    Tlf { pos: u8, ty: u8, raw: u64, nibbles: u16, cont_bits: Option<(u8, u8)>, more_on_last: bool, data: DataSpec, fix: bool, high: Option<(u8, u16)> },
     /// integer of `width` bytes (0..=9) at a numeric position
     Num { pos: u8, signed: bool, width: u8, lead: u8, rest: u64, extra: u8, fix: bool },
     /// boolean byte
@@ -186,7 +186,7 @@ fn exh_len(tier: Tier) -> usize {
 
 impl Prop for C12 {
     const ID: &'static str = "C12";
-    const RULE: &'static str = "fields placed at seven grammar positions of a one-message file (transaction id = octet context, value-list TLF = list context visible as num_vals before any entry or CRC is read, list-entry value = integer / unsigned / boolean / octet / list context, status, unit, scaler, value time), followed by their data and template bytes, with checksum fix-up. Exhaustive: every byte sequence of length 1..2 (thorough 1..3) as field at the first three positions. Generated: TLFs of 1..12 bytes (occasionally up to 40, ~256 or ~512 bytes, i.e. beyond any 8-bit byte counter) from nibble patterns (leading zero nibbles, all-F, 2^32-1, 2^32, 2^32+small, values whose low 32 bits equal the length of the data actually supplied, reserved type bits in first / continuation bytes, more-bit on the last byte), integers of width 0..9 x signedness x leading byte {00,01,7f,80,fe,ff,random} x random rest x 0..3 extra TLF bytes, all 256 boolean bytes. Oracle: the reference event reader R3 vs the streaming parser's events (fields are visible there before the message CRC is checked) and, for the whole message, vs complete::parse: a value => identical event; a rejection (negative length, > 32 bits, reserved bits, wrong type for the position, missing bytes) => an error, never an event built from a wrapped or truncated length. Non-trivial: the TLF spans >= 2 bytes, or an integer whose leading byte is a boundary value. Distinct = distinct (position, field, data).";
+    const RULE: &'static str = "fields placed at seven grammar positions of a one-message file (transaction id = octet context, value-list TLF = list context visible as num_vals before any entry or CRC is read, list-entry value = integer / unsigned / boolean / octet / list context, status, unit, scaler, value time), followed by their data and template bytes, with checksum fix-up. Exhaustive: every byte sequence of length 1..2 (thorough 1..3) as field at the first three positions. Generated: TLFs of 1..12 bytes (occasionally up to 40, ~256 or ~512 bytes, i.e. beyond any 8-bit byte counter) from nibble patterns (leading zero nibbles, all-F, 2^32-1, 2^32, 2^32+small, values whose low 32 bits equal the length of the data actually supplied, one extra non-zero 4-bit group 8..47 groups before the end of the field (worth 2^32 .. beyond 2^64 and 2^128, the field lengthened as needed), reserved type bits in first / continuation bytes, more-bit on the last byte), integers of width 0..9 x signedness x leading byte {00,01,7f,80,fe,ff,random} x random rest x 0..3 extra TLF bytes, all 256 boolean bytes. Oracle: the reference event reader R3 vs the streaming parser's events (fields are visible there before the message CRC is checked) and, for the whole message, vs complete::parse: a value => identical event; a rejection (negative length, > 32 bits, reserved bits, wrong type for the position, missing bytes) => an error, never an event built from a wrapped or truncated length. Non-trivial: the TLF spans >= 2 bytes, or an integer whose leading byte is a boundary value. Distinct = distinct (position, field, data).";
     type Case = Case;
     type Input = Input;
 
@@ -207,15 +207,15 @@ impl Prop for C12 {
             5 => (prop_oneof![Just(0u8), Just(1u8), Just(0x7fu8), Just(0x80u8), Just(0xffu8), any::<u8>()], any::<u64>(), prop_oneof![6 => Just(0i8), 1 => Just(-1i8), 1 => Just(1i8)]).prop_map(|(lead, seed, delta)| DataSpec::Consistent { lead, seed, delta }),
             1 => Just(DataSpec::None),
         ];
-        let tlf = (0u8..7, prop_oneof![8 => prop_oneof![Just(0u8), Just(4u8), Just(5u8), Just(6u8), Just(7u8)], 1 => 0u8..8], raw, prop_oneof![30 => 0u16..5, 2 => 5u16..40, 1 => 244u16..262, 1 => 500u16..520], prop::option::weighted(0.08, (0u8..12, 1u8..8)), prop::bool::weighted(0.05), data, prop::bool::weighted(0.8))
-            .prop_map(|(pos, ty, raw, extra, cont_bits, more_on_last, data, fix)| {
+        let tlf = (0u8..7, prop_oneof![8 => prop_oneof![Just(0u8), Just(4u8), Just(5u8), Just(6u8), Just(7u8)], 1 => 0u8..8], raw, prop_oneof![30 => 0u16..5, 2 => 5u16..40, 1 => 244u16..262, 1 => 500u16..520], prop::option::weighted(0.08, (0u8..12, 1u8..8)), prop::bool::weighted(0.05), data, prop::bool::weighted(0.8), prop::option::weighted(0.12, (1u8..16, prop_oneof![3 => 8u16..10, 3 => 15u16..18, 2 => 31u16..34, 2 => 8u16..48])))
+            .prop_map(|(pos, ty, raw, extra, cont_bits, more_on_last, data, fix, high)| {
                 let mut need = 1u16;
                 let mut v = raw >> 4;
                 while v > 0 {
                     need += 1;
                     v >>= 4;
                 }
-                Case::Tlf { pos, ty, raw, nibbles: if extra < 5 { (need + extra).min(12) } else { need + extra }, cont_bits, more_on_last, data, fix }
+                Case::Tlf { pos, ty, raw, nibbles: if extra < 5 { (need + extra).min(12) } else { need + extra }, cont_bits, more_on_last, data, fix, high }
             });
         let num = (prop_oneof![Just(2u8), Just(3u8), Just(4u8), Just(5u8), Just(6u8)], any::<bool>(), 0u8..10, prop_oneof![Just(0u8), Just(1u8), Just(0x7fu8), Just(0x80u8), Just(0xfeu8), Just(0xffu8), any::<u8>()], any::<u64>(), prop_oneof![6 => Just(0u8), 2 => 1u8..4], prop::bool::weighted(0.8))
             .prop_map(|(pos, signed, width, lead, rest, extra, fix)| Case::Num { pos, signed, width, lead, rest, extra, fix });
@@ -226,8 +226,17 @@ impl Prop for C12 {
 
     fn lower(c: &Case) -> Input {
         match c {
-            Case::Tlf { pos, ty, raw, nibbles, cont_bits, more_on_last, data, fix } => {
-                let mut field = tlf_bytes(*ty, *raw, *nibbles as usize);
+            Case::Tlf { pos, ty, raw, nibbles, cont_bits, more_on_last, data, fix, high } => {
+                // `high`: one more non-zero 4-bit group d groups before the end (d >= 8, i.e. worth 2^32 or more -
+                // also beyond 2^64 and 2^128, where a wider accumulator would wrap), the field being lengthened as needed
+                let nbytes = match high {
+                    Some((_, d)) => (*nibbles as usize).max(*d as usize + 1),
+                    None => *nibbles as usize,
+                };
+                let mut field = tlf_bytes(*ty, *raw, nbytes);
+                if let Some((nib, d)) = high {
+                    field[nbytes - 1 - *d as usize] |= *nib & 0x0f;
+                }
                 if let Some((k, bits)) = cont_bits {
                     let k = *k as usize % field.len();
                     if k > 0 {
